@@ -89,6 +89,19 @@ def generate(rng, tier):
         elif r < 0.35:
             specs = mibgen.gen_modules(rng, rng.choice([1, 2, 3]), cycles=False, defects=0.0, compliance=0.5)
             b = {'kind': 'compile', 'modules': specs, 'requested': [sorted(specs)[-1]]}
+            if rng.random() < 0.4:
+                # a module that fails inside the code generator after registering most of its objects is
+                # generated first; the others follow on the same generator object
+                bad = sorted(specs)[0]
+                specs[bad]['variant'] = 'latefail'
+                specs[bad]['arcs'] = specs[bad]['arcs'] or [1, 2]
+                specs[bad]['compliance'] = True
+                for n2, sp2 in specs.items():
+                    if n2 != bad:
+                        sp2['imports'] = [x for x in sp2['imports'] if x != bad]
+                        if sp2.get('oidparent') == bad:
+                            sp2['oidparent'] = None
+                b['requested'] = [bad] + [n2 for n2 in sorted(specs) if n2 != bad]
         else:
             b = {'kind': 'direct', 'map': gen_status_map(rng, rng.sample(names, rng.choice([1, 2, 3, 4])))}
         if rng.random() < 0.12:
@@ -97,11 +110,20 @@ def generate(rng, tier):
             b['ignoreErrors'] = True
         builds.append(b)
     scn = {'builds': builds, 'suffix': rng.choice(['', '.json'])}
+    if rng.random() < 0.4:
+        # two long-lived compilers sharing the destination instead of a fresh one per build
+        scn['persistent'] = True
+        for b in builds:
+            b['who'] = rng.choice(['A', 'A', 'B'])
     r = rng.random()
     if r < 0.25:
         k = rng.randrange(len(builds))
         scn['faults'] = [{'op': k, 'site': rng.choice(['mkstemp', 'os.write', 'os.close', 'os.rename']), 'nth': 0,
                           'action': 'errno', 'arg': rng.choice(['EIO', 'ENOSPC', 'EACCES'])}]
+        if rng.random() < 0.4:
+            f2 = dict(scn['faults'][0])
+            f2['nth'] = 1        # should the code retry the call, it fails again
+            scn['faults'].append(f2)
     elif r < 0.33:
         scn['corrupt_before'] = rng.randrange(1, len(builds))
         scn['corrupt_kind'] = rng.choice(['garbage', 'truncated', 'empty-object'])
@@ -145,10 +167,13 @@ def run(scn):
         prev_doc = None
         shapes = []
         digit_pat = False
+        longlived = {}
+        truths = {}         # build index -> {module: ground-truth OID set} (compile builds of generated modules)
         corrupt_active = False
         with w:
             for i, b in enumerate(scn['builds']):
                 w.begin_op(i, b['kind'])
+                truth = {}
                 if scn.get('corrupt_before') == i:
                     with core.unhooked():
                         if os.path.exists(idxfile):
@@ -162,12 +187,19 @@ def run(scn):
                                 prev_doc = {}
                             else:
                                 corrupt_active = True
-                # 'process restart': fresh compiler, generator, writer
-                writer = FileWriter(dst).setOptions(suffix=scn.get('suffix', ''))
-                comp = MibCompiler(cs.get_parser(), cs.new_codegen('json'), writer)
+                # 'process restart': fresh compiler, generator, writer -- or one of two long-lived compilers
+                if scn.get('persistent') and b.get('who') in longlived:
+                    comp = longlived[b['who']]
+                else:
+                    writer = FileWriter(dst).setOptions(suffix=scn.get('suffix', ''))
+                    comp = MibCompiler(cs.get_parser(), cs.new_codegen('json'), writer)
+                    if scn.get('persistent'):
+                        longlived[b.get('who', 'A')] = comp
+                        comp._verif_sources = False
                 if b['kind'] == 'repeat':
                     src = scn['builds'][b['of']]
                     statuses = maps[b['of']]
+                    truth = truths.get(b['of'], {})
                 elif b['kind'] == 'direct':
                     statuses = to_statuses(b['map'])
                 else:
@@ -176,9 +208,13 @@ def run(scn):
                     for n, sp in specs.items():
                         texts[n] = mibgen.render(sp, specs)
                     from pysmi.reader.callback import CallbackReader
-                    comp.addSources(CallbackReader(lambda n, c, texts=texts: texts.get(n)))
+                    comp._sources[:] = [CallbackReader(lambda n, c, texts=texts: texts.get(n))]
+                    for n, sp in specs.items():
+                        if sp.get('variant', 'ok') == 'ok':
+                            truth[n] = set(mibgen.dotted(o) for o in mibgen.defined_oids(sp, specs))
+                    truths[i] = truth
                     try:
-                        statuses = comp.compile(*b['requested'], **{'writeMibs': False})
+                        statuses = comp.compile(*b['requested'], **{'writeMibs': False, 'ignoreErrors': True})
                     except BaseException as e:  # noqa
                         if isinstance(e, (core.StepBudget, core.WorldTimeout)):
                             raise
@@ -252,12 +288,22 @@ def run(scn):
                     if not (oids or ident or ent or compl):
                         continue
                     e = M.setdefault(m, {'oids': set(), 'identity': set(), 'enterprise': set(), 'compliance': set()})
-                    e['oids'].update(oids)
+                    if m in truth:
+                        # what the module text defines, not what the generator claims
+                        e['oids'].update(truth[m])
+                        extra = sorted(set(oids) - truth[m])
+                        if extra:
+                            V('C18.3-only-own', 'compile() reports OIDs %s for module %s which its text does not define' % (extra[:3], m), what='status-foreign-oid')
+                        continue_compl = [c for c in compl if c in truth[m]]
+                        if len(continue_compl) != len(list(compl)):
+                            V('C18.3-only-own', 'compile() reports compliance OIDs %s for module %s which its text does not define' % (sorted(set(compl) - truth[m])[:3], m), what='status-foreign-compliance')
+                    else:
+                        e['oids'].update(oids)
                     if ident:
                         e['identity'].add(ident)
                     if ent:
                         e['enterprise'].add(ent)
-                    e['compliance'].update(compl)
+                    e['compliance'].update(c for c in compl if m not in truth or c in truth[m])
                 try:
                     doc = json.loads(after.decode())
                 except Exception:
@@ -334,6 +380,10 @@ def run(scn):
 
 
 def shrink(scn):
+    if scn.get('persistent'):
+        s = copy.deepcopy(scn)
+        s.pop('persistent')
+        yield s
     for k in ('faults', 'rate', 'corrupt_before'):
         if k in scn:
             s = copy.deepcopy(scn)
